@@ -94,8 +94,8 @@ pub fn run(out: &Path, seed: u64, thorough: bool) -> Result<(), Box<dyn std::err
     }
 
     // ---- (b)-(d) transactions on real instances ----------------------------------------------
-    let worlds = if thorough { 8 } else { 3 };
-    let steps = if thorough { 120 } else { 40 };
+    let worlds = if thorough { 9 } else { 6 };
+    let steps = if thorough { 150 } else { 60 };
     for wi in 0..worlds {
         let cfg = match wi % 3 { 0 => NetCfg::regtest(), 1 => NetCfg::mainnet(0), _ => NetCfg::signet(0) };
         // the twin gets the same world from the same random choices
@@ -295,13 +295,51 @@ pub fn run(out: &Path, seed: u64, thorough: bool) -> Result<(), Box<dyn std::err
         for p in d.cases.problems.drain(..) { fails.push(p); }
     }
 
+    // ---- (e) the loop at the edge of u64: EVM_CALL_GAS_LIMIT = u64::MAX and just below ---------------
+    for cap in [u64::MAX, u64::MAX - 20_999, u64::MAX - 21_000, 1u64 << 63, 30_000, 21_000, 25_000] {
+        let mut cfg = NetCfg::regtest();
+        cfg.cap = cap;
+        let mut d = Drv::new(cfg);
+        d.record_cases = false;
+        let _ = d.initialise(&Hx::zero32(), 1_700_000_000);
+        let from = sim::pkscript_address(PKSCRIPTS[0]);
+        let to = Address::from_slice(&[0x77; 20]);
+        let (r, ss) = d.estimate_gas(Some(from), Some(to), &[1, 2, 3]);
+        bump("edge_caps", &mut counters);
+        match &r {
+            Ok(v) => {
+                let e = envs::hexu(v);
+                // independent reference: the call needs 21000 + 3*16 gas; the answer must succeed and be within 12000 of it (or be the cap)
+                let need = 21_048u64;
+                let runs = runs_of(&ss);
+                let confirmed = runs.last().map(|(g, ok)| *g == e && *ok == Some(true)).unwrap_or(false);
+                if !(confirmed && e >= need && (e <= need + GPB + 21_000 || e == cap)) {
+                    fails.push(json!({"what": "C16: eth_estimateGas returned an estimate that was not confirmed or is far from the need", "case": {"evm_call_gas_limit": cap, "estimate": e, "runs": runs.len()}}));
+                }
+                if ss.len() > 70 { fails.push(json!({"what": "C16: eth_estimateGas needed more than 64 bisection steps", "case": {"evm_call_gas_limit": cap, "runs": ss.len()}})); }
+                if cap <= (1 << 62) {
+                    let (cr, got) = (coq_runs(&runs), format!("(Some {})", e));
+                    g.push("estimate", |id| format!("GEstimate {} {} {} {}", id, cap, cr, got), json!({"cap": cap, "runs": runs.len(), "got": e, "label": "edge-cap"}));
+                }
+            }
+            Err(RpcFail::Panic(m)) => fails.push(json!({"what": "C16: eth_estimateGas overflows u64 when evm_call_gas_limit is within 21000 of u64::MAX (panic with overflow checks; the loop never ends without them)",
+                "case": {"evm_call_gas_limit": cap, "panic": m, "call": {"from": Hx::addr(from).hex0x(), "to": Hx::addr(to).hex0x(), "data": "0x010203"}}})),
+            Err(RpcFail::Hang) => fails.push(json!({"what": "C16: eth_estimateGas overflows u64 when evm_call_gas_limit is within 21000 of u64::MAX (panic with overflow checks; the loop never ends without them)",
+                "case": {"evm_call_gas_limit": cap, "hang": true}})),
+            Err(e) => {
+                // a cap below the intrinsic gas cannot run the call at all: an error answer is right
+                if cap >= 21_048 { fails.push(json!({"what": "C16: eth_estimateGas failed for a plain call", "case": {"evm_call_gas_limit": cap, "answer": format!("{:?}", e)}})); }
+            }
+        }
+    }
+
     // env ids are offset so that both families can be told apart in the runner's output
     let env_terms: Vec<String> = envc.terms.iter().map(|t| {
         let mut parts = t.splitn(3, ' ');
         let (c, id, rest) = (parts.next().unwrap_or(""), parts.next().unwrap_or("0"), parts.next().unwrap_or(""));
         format!("{} {} {}", c, 1_000_000 + id.parse::<u64>().unwrap_or(0), rest)
     }).collect();
-    let mut files = cf::write_shards(out, "c16_gas", "From Brc.Model Require Import Base Gas Tie16.\nFrom BrcGen Require Import Consts.", "gcase", "bad_gas_cases GAS_PER_BYTE", &g.terms, (g.terms.len() / 400).max(1).min(8))?;
+    let mut files = cf::write_shards(out, "c16_gas", "From Brc.Model Require Import Base Gas Tie16.\nFrom BrcGen Require Import Consts.", "gcase", "bad_gas_cases GAS_PER_BYTE ESTIMATE_ARITH_SAFE", &g.terms, (g.terms.len() / 400).max(1).min(8))?;
     // keep the environment part small: the other two checks cover it broadly
     let env_keep: Vec<String> = env_terms.into_iter().enumerate().filter(|(i, t)| t.contains("ODrained") || i % 4 == 0).map(|(_, t)| t).collect();
     files.extend(cf::write_shards(out, "c16_env", envs::TIE_IMPORTS, "ecase", envs::TIE_EVAL, &env_keep, (env_keep.len() / 20).max(1).min(8))?);
